@@ -13,6 +13,7 @@ from ..sx import terms as T
 from ..shims import pd_shim
 from ..shims import scipy_shim as SS
 from ..shims.np_shim import SymArray
+from ..sx.sym import QI
 from .common import (P, box, check_defined, evalf, load_sym, model_floats, not_close, paths, rng, K, Q, Sym, lift,
                      simp, fresh, uf_callable)
 from .c13 import _uf
@@ -231,7 +232,31 @@ def replay_builder(model, dry="dry gas", pmax=45):
     return bool(problems), {"what": f"build_pvt_gas(..., {dry!r}, {pmax}): " + ("; ".join(problems) or "routes agree"), "inputs": m}
 
 
-def job_builder(job, pmax):
+def replay_builder_int(model, dry="dry gas", pmax=45):
+    """Real build_pvt_gas with the maximum pressure given as a Python int (as the default 14_000 is) and a reservoir
+    temperature that is not a whole number: the integrand columns row by row against the stand-alone correlations at the
+    caller's temperature."""
+    import numpy as np
+    from bluebonnet.fluids import fluid as rf
+    import bluebonnet.fluids.gas as rg
+    m = model_floats(model, ["N2", "H2S", "CO2", "sg", "T"], default=dict(N2=0.02, H2S=0.05, CO2=0.01, sg=0.75, T=212.75))
+    if abs(m["T"] - round(m["T"])) < 0.05:
+        m["T"] = float(int(m["T"])) + 0.37
+    gv = {"N2": m["N2"], "H2S": m["H2S"], "CO2": m["CO2"], "Gas Specific Gravity": m["sg"], "Reservoir Temperature (deg F)": m["T"]}
+    df = rf.build_pvt_gas(gv, dry, 3000)
+    tpc, ppc = rg.pseudocritical_point_Sutton(m["sg"], rg.make_nonhydrocarbon_properties(m["N2"], m["H2S"], m["CO2"]), dry)
+    p = np.asarray(df["pressure"], float)
+    problems = []
+    for k in (0, len(p) // 2, len(p) - 1):
+        z, mu = float(rg.z_factor_DAK(m["T"], p[k], tpc, ppc)), float(rg.viscosity_Sutton(m["T"], p[k], tpc, ppc, m["sg"]))
+        gz, gmu = float(np.asarray(df["z-factor"])[k]), float(np.asarray(df["viscosity"])[k])
+        if abs(gz - z) > 1e-9 * abs(z) or abs(gmu - mu) > 1e-9 * abs(mu):
+            problems.append(f"row {k} (p={p[k]}): table Z = {gz!r}, viscosity = {gmu!r} vs the correlations at T = {m['T']!r}: {z!r}, {mu!r}")
+    return bool(problems), {"what": f"build_pvt_gas(..., {dry!r}, 3000 as a Python int), T = {m['T']!r}: " + ("; ".join(problems[:2]) or "integrand columns at the caller's temperature"),
+                            "inputs": m}
+
+
+def job_builder(job, pmax, int_pmax=False):
     mod, gas, ufs = load_fluid_with_ufs()
     job.encoded(mod, "build_pvt_gas", "pseudopressure")
     job.stub("gas correlations inside build_pvt_gas: uninterpreted recording functions; pandas.DataFrame: exact column container")
@@ -240,7 +265,9 @@ def job_builder(job, pmax):
     gv = {"N2": vs["N2"], "H2S": vs["H2S"], "CO2": vs["CO2"], "Gas Specific Gravity": vs["sg"], "Reservoir Temperature (deg F)": vs["T"]}
     for di, dry in enumerate(("dry gas", "wet gas", "dry gas")):       # the third build follows one for the other gas type with the same inputs
         dtag = dry + (", after a wet-gas build with the same inputs" if di == 2 else "")
-        res = paths(job, lambda: mod.build_pvt_gas(gv, dry, Q(pmax)), dom, max_paths=64)
+        if int_pmax:
+            dtag += ", maximum pressure a Python int"
+        res = paths(job, lambda: mod.build_pvt_gas(gv, dry, QI(pmax) if int_pmax else Q(pmax)), dom, max_paths=64)
         for k, pr in enumerate(res):
             if pr.exc is not None:
                 job.errors.append(f"build_pvt_gas[{dtag}] path {k} raised {pr.exc!r}")
@@ -263,16 +290,16 @@ def job_builder(job, pmax):
                 same.append(T.b_eq(P(mu[j]), P(ufs["viscosity_Sutton"](vs["T"], p[j], tpc, ppc, vs["sg"]))))
                 same.append(T.b_eq(P(z[j]), P(ufs["z_factor_DAK"](vs["T"], p[j], tpc, ppc))))
             job.prove(f"builder[{dtag}]/integrand columns are viscosity_Sutton and z_factor_DAK at the Sutton point of the caller's composition[path{k}]",
-                      pr.pc + [T.b_not(T.b_and(*same))], bound=f"{n} rows", replay=(replay_builder_vs_quad, {"dry": dry, "pmax": pmax}))
+                      pr.pc + [T.b_not(T.b_and(*same))], bound=f"{n} rows", replay=(replay_builder_int if int_pmax else replay_builder_vs_quad, {"dry": dry, "pmax": pmax}))
             job.prove(f"builder[{dtag}]/reach[path{k}]", pr.pc, expect="sat")
 
 
 # concrete replays run on the real code when the changed code uses something the engine does not model (harness.finish)
-FALLBACK = [(replay_builder, {}), (replay_builder, {"dry": "wet gas"}), (replay_builder_vs_quad, {}), (replay_builder_vs_quad, {"dry": "wet gas"}), (replay_hussainy, {}), (replay_hussainy_value, {})]
+FALLBACK = [(replay_builder, {}), (replay_builder, {"dry": "wet gas"}), (replay_builder_vs_quad, {}), (replay_builder_vs_quad, {"dry": "wet gas"}), (replay_hussainy, {}), (replay_hussainy_value, {}), (replay_builder_int, {})]
 
 
 def jobs(tier):
-    out = [("hussainy", job_hussainy), ("transform3", lambda j: job_transform(j, 3)), ("transform3-descending", lambda j: job_transform(j, 3, True)), ("builder", lambda j: job_builder(j, 45))]
+    out = [("hussainy", job_hussainy), ("transform3", lambda j: job_transform(j, 3)), ("transform3-descending", lambda j: job_transform(j, 3, True)), ("builder", lambda j: job_builder(j, 45)), ("builder-int-maximum-pressure", lambda j: job_builder(j, 45, True))]
     if tier != "quick":
         out += [("transform4", lambda j: job_transform(j, 4)), ("transform5", lambda j: job_transform(j, 5)),
                 ("builder75", lambda j: job_builder(j, 75)), ("transform8", lambda j: job_transform(j, 8)),
